@@ -9,8 +9,8 @@ VARIABLE i
 AsL(ls) == [k \in DOMAIN ls |-> [ind |-> ls[k].ind, first |-> "x", w |-> ls[k].w]]
 Verdict(r) ==
   LET m == Machine(r.events, "idle")
-      refs == AllNames(r.policyLines, IF r.vendor = "huawei" THEN HuaweiRefs ELSE AristaRefs)
-      defs == AllNames(r.defLines, IF r.vendor = "huawei" THEN HuaweiDefs ELSE AristaDefs)
+      refs == AllNames(r.policyLines, RefsOf(r.vendor))
+      defs == AllNames(r.defLines, DefsOf(r.vendor))
   IN IF m # "ok" THEN m
      ELSE IF r.raised THEN "ok"                              \* refused cleanly: nothing else to judge
      ELSE IF r.aclError THEN "line-outside-the-generators-own-acl"
